@@ -24,6 +24,8 @@ var checks = map[string]entry{
 	"C02": {"model_checking", props.C02},
 	"C04": {"model_checking", props.C04},
 	"C05": {"model_checking", props.C05},
+	"C06": {"model_checking", props.C06},
+	"C07": {"model_checking", props.C07},
 	"C08": {"model_checking", props.C08},
 	"C09": {"model_checking", props.C09},
 	"C10": {"model_checking", props.C10},
